@@ -637,11 +637,17 @@ PROPS = {
         "level": "other", "explanation": "", "assumptions": ["Ipv6Addr::from_str is std code: modelled for the driver, compared with Python's ipaddress in the oracle"],
     },
     "C14": {
-        "module": "DnsModel.Theorems.C14", "theorems": [],
+        "module": "DnsModel.Theorems.C14",
+        "theorems": ["Dns.C14.from_text_sound", "Dns.C14.from_text_complete", "Dns.C14.textLabel_of_ldh", "Dns.C14.rejects_long_text",
+                     "Dns.C14.rejects_empty_label", "Dns.C14.rejects_leading_dot", "Dns.C14.rejects_long_label", "Dns.C14.never_longer",
+                     "Dns.C14.wire_wellformed", "Dns.C14.reads_back", "Dns.C14.with_zone"],
         "families": [{"name": "name2raw", "quick": 4, "thorough": 6, "fixed": True}],
         "oracle": oracle_c14, "nontrivial": lambda c, a: a.startswith("ok"), "shrink": False,
         "rule": "all strings over {a,B,0,-,_,.,0x80} up to length 4 (quick) / 6 (thorough), each with and without a default zone, plus label lengths 60..65 and text lengths 245..258, forbidden bytes; each accepted name is also given to a record and read back",
-        "level": "other", "explanation": "", "assumptions": [],
+        "level": "proof",
+        "explanation": "theorems: for all byte strings and zones the model of the conversion accepts exactly texts made of dot-separated labels of 1..62 dot-free bytes <= 128 (optionally a final dot; the single dot and the empty text give the root) whose result fits 253 bytes, returns the length-prefixed encoding of exactly those labels followed by the root byte or the zone, rejects empty labels, leading dots, runs of 63+, long texts; the result is a valid pointer-free name whose text form is the input without its final dot; "
+                       "correspondence: the real conversion agrees with the model exhaustively on short strings over a 7-symbol alphabet and on boundary lengths, and every accepted name is given to a record and read back",
+        "assumptions": ["reading back through a record is proved for the accessor applied to the encoded name (C03 accessors + reads_back); installing the name in a packet is covered by C08's correspondence"],
     },
     "C15": {
         "module": "DnsModel.Theorems.C15", "theorems": ["Dns.C15.layout", "Dns.C15.classified"],
@@ -738,8 +744,8 @@ MANIFEST_TEXT = {
             "note": NOTE, "technique": "exhaustive correspondence over flag words + div/mod oracle"},
     "C13": {"text": "Proved: synthesis is total (every byte string gives a record or an error value; so does the host-name conversion). Not proved: the grammar round-trip. Deterministic recogniser mirroring the chomp combinator tree + builders; real synthesis compared with the model and with an independent Python synthesiser of the RFC 1035 wire form on grammar-derived, damaged and arbitrary texts, and the result inserted into valid packets." + PENDING,
             "note": NOTE + " chomp1 combinator semantics read from the vendored source; Ipv6Addr::from_str modelled.", "technique": "model/implementation correspondence + reference synthesiser oracle"},
-    "C14": {"text": "Model of copy_raw_name_from_str; exhaustive over a 7-symbol alphabet up to length 4 (quick) / 6 (thorough) with and without zone, boundary lengths; every accepted name is given to a record and read back." + PENDING,
-            "note": NOTE, "technique": "exhaustive small-alphabet correspondence + label oracle"},
+    "C14": {"text": "Lean theorems for all byte strings and zones: the index-based loop of copy_raw_name_from_str is a left-to-right scan; it accepts exactly dot-separated labels of 1..62 dot-free bytes <= 128 (optional final dot; '.' and '' give the root) whose result fits 253 bytes (so every LDH/underscore name within the limits), returns the length-prefixed encoding of exactly those labels followed by 0 or the zone, rejects an empty label, a leading dot, a dot-free run of 63+, a text or result over 253; the result is a valid pointer-free name (labels 1..63, total <= 255) and the name accessor's text for it is the input without its final dot. Real conversion compared with the model exhaustively over a 7-symbol alphabet up to length 4 (quick) / 6 (thorough) with and without zone, boundary lengths; every accepted name is given to a record and read back.",
+            "note": NOTE, "technique": "Lean 4 proof (loop = scan refinement, scan soundness/completeness by induction) + exhaustive small-alphabet correspondence + label oracle"},
     "C15": {"text": "Proved on data regenerated from c_abi.rs and c_hook.h on every run: the table's order, count (30) and ABI-class signatures agree with the header and the initialiser follows declaration order. Facade behaviour: hook scripts run through the Rust table and through a C driver compiled against the shipped header (-Wall -Werror), with canaries around caller buffers; transcripts must equal each other and the model's (which is the native semantics).",
             "note": NOTE + " Memory safety of the unsafe blocks is observed (canaries), not verified.", "technique": "Lean decide on translated tables + three-way correspondence (C driver / Rust table / model)"},
     "C16": {"text": "Per-thread slot model with the theorem that a read returns the thread's own last failure for every history; real threads stepped through all 2x3 interleavings x step kinds and sampled 3-4 thread schedules.",
